@@ -29,7 +29,7 @@ func c15(c *Ctx) {
 	}
 	r.Floor("R1.encoder", 1)
 	r.Floor("R1.decoder", 1)
-	r.Floor("R2.slice-guard", 2)
+	r.Floor("R2.slice-guard", 4)
 	r.Floor("R3.varint-error", 1)
 	r.Floor("R3.item-error", 2)
 	r.Floor("R3.loop-remainder", 1)
@@ -143,6 +143,27 @@ func c15(c *Ctx) {
 					} else {
 						r.Pass("R2.slice-guard", key, p.Pos(sl.Pos()), "dominated on all paths by len(input) >= bound (same expression)")
 					}
+					// the bound is computed without wrap-around: additions in a >= 64-bit integer type
+					wide := true
+					var chk func(v ssa.Value, d int)
+					chk = func(v ssa.Value, d int) {
+						if d > 6 {
+							return
+						}
+						if bo, ok := v.(*ssa.BinOp); ok && (bo.Op == token.ADD || bo.Op == token.MUL) {
+							if bt, ok := bo.Type().Underlying().(*types.Basic); ok {
+								switch bt.Kind() {
+								case types.Int, types.Int64, types.Uint64, types.Uint, types.Uintptr:
+								default:
+									wide = false
+								}
+							}
+							chk(bo.X, d+1)
+							chk(bo.Y, d+1)
+						}
+					}
+					chk(bound, 0)
+					r.Check(wide, "R2.slice-guard", key+" no-wrap", p.Pos(sl.Pos()), "header + length is added in a 64-bit integer type (a 32-bit prefix cannot wrap it)", "the bound header+length is computed in a 32-bit (or narrower) type: a length prefix close to 2^32 wraps around, passes the length check and the slice panics")
 					// bound must be header + length decoded
 					okB := core.Derives(bound, func(v ssa.Value) bool { return v == ssa.Value(call) }, core.DeriveOpts{})
 					r.Check(okB, "R2.slice-guard", key+" bound-provenance", p.Pos(sl.Pos()), "bound derives from the varint decoder's results", "slice bound does not derive from the decoded length")
